@@ -3,6 +3,10 @@ import TpmModel.ValParse
 import TpmModel.Spec
 import TpmModel.Generated.Cmd
 import TpmModel.Pinned.Cmd
+import TpmModel.Generated.Misc
+import TpmModel.Pinned.Misc
+import TpmModel.Pinned.Prims
+import TpmModel.RcSpec
 /-! Line-protocol driver: one operation per input line, canonical observation lines + `END` per operation. -/
 
 def findType (n : String) : Option Ty := (Generated.typeByName.find? (·.1 == n)).map (·.2)
@@ -13,6 +17,23 @@ def parseTop (ty cc enc : String) : Option Top :=
   | "Stream" => some .stream
   | "Response" => some (.response (if cc == "-" then none else cc.toInt?) (enc == "1"))
   | n => (findType n).map .ty
+
+def findPrim (n : String) : Option Prim := Generated.allPrims.find? (·.name == n)
+
+def rcFmt (v : Nat) : Option String := rcFormat Generated.rcTables "TPM_RC" v
+
+def primLine (p : Prim) (x : Int) : String :=
+  let w := p.wireOf x
+  let bytes := if inRange w.1 w.2 x then hexOfBytes (p.toBytes x) else "OverflowError"
+  s!"I valid={if p.isValid x then 1 else 0} bytes={bytes} fmt={p.format rcFmt x}"
+
+def bitLines (p : Prim) (x : Nat) : List String :=
+  let rows := match p.flavour with
+    | .rc => rcRows Generated.rcTables x
+    | _ => p.masks
+  rows.map fun nm =>
+    let f := match bitGet x nm.2 with | some k => toString k | none => "hang"
+    s!"F {nm.1} {nm.2} {f} {bitsRow (8 * p.size) nm.2 x}"
 
 def handle (line : String) : List String :=
   match line.splitOn " " with
@@ -37,6 +58,23 @@ def handle (line : String) : List String :=
       | some (bs, evs) => ("B " ++ (if bs.isEmpty then "-" else hexOfBytes bs)) :: evs.map fun (o, e) => s!"E {o} {e.str}"
     | none, _ => ["X unknown-type " ++ ty]
     | _, none => ["X bad-val"]
+  | ["INT", pn, xs] =>
+    match findPrim pn, xs.toInt? with
+    | some p, some x => [primLine p x]
+    | _, _ => ["X bad-int-op"]
+  | ["INTP", pn, xs] =>
+    -- the same question answered from the pinned tables, response codes by the bit-position spec
+    match Pinned.allPrims.find? (·.name == pn), xs.toInt? with
+    | some p, some x =>
+      let w := p.wireOf x
+      let bytes := if inRange w.1 w.2 x then hexOfBytes (intToBytes p.size x) else "OverflowError"
+      let rc := fun v => rcRender Pinned.rcTables "TPM_RC" (C18.rcSpec v)
+      [s!"I valid={if p.isValid x then 1 else 0} bytes={bytes} fmt={p.format rc x}"]
+    | _, _ => ["X bad-int-op"]
+  | ["BITS", pn, xs] =>
+    match findPrim pn, xs.toNat? with
+    | some p, some x => bitLines p x
+    | _, _ => ["X bad-bits-op"]
   | _ => ["X bad-op"]
 
 partial def loop (h : IO.FS.Stream) (out : IO.FS.Stream) : IO Unit := do
